@@ -32,9 +32,10 @@ type tn struct {
 }
 
 type tgen struct {
-	r       *proto.Rand
-	next    int
-	hasGoto bool
+	r        *proto.Rand
+	next     int
+	hasGoto  bool
+	injected int
 }
 
 func (g *tgen) breakable(k string) *tn {
@@ -283,6 +284,134 @@ func b2i(b bool) int {
 	return 0
 }
 
+// ---- terminating by construction, then a break (or continue) injected somewhere ----
+
+// term generates a statement that is terminating by construction.
+func (g *tgen) term(depth int, ctx []*tn) *tn {
+	k := g.r.Intn(12)
+	if depth <= 0 {
+		k = g.r.Intn(3)
+	}
+	switch {
+	case k == 0:
+		return &tn{k: "ret"}
+	case k == 1:
+		return &tn{k: "panic"}
+	case k == 2:
+		if g.r.Bool() {
+			return &tn{k: "goto"}
+		}
+		return &tn{k: "ret"}
+	case k == 3:
+		return &tn{k: "block", body: g.termList(depth-1, ctx)}
+	case k <= 5:
+		n := &tn{k: "ifelse", body: g.termList(depth-1, ctx)}
+		if g.r.Intn(3) == 0 {
+			n.els = &tn{k: "ifelse", body: g.termList(depth-1, ctx), els: &tn{k: "block", body: g.termList(depth-1, ctx)}}
+		} else {
+			n.els = &tn{k: "block", body: g.termList(depth-1, ctx)}
+		}
+		return n
+	case k <= 7:
+		n := g.breakable("for")
+		inner := append(append([]*tn{}, ctx...), n)
+		if g.r.Bool() {
+			n.body = g.termList(depth-1, inner)
+		} else {
+			n.body = []*tn{{k: "simple"}}
+			n.body = append(g.inject(depth-1, inner), n.body...)
+		}
+		return n
+	default:
+		n := g.breakable("sw")
+		n.kind = []string{"expr", "type", "type", "select"}[g.r.Intn(4)]
+		nc := 1 + g.r.Intn(3)
+		inner := append(append([]*tn{}, ctx...), n)
+		for i := 0; i < nc; i++ {
+			n.clauses = append(n.clauses, g.termList(depth-1, inner))
+		}
+		n.dflt = g.r.Intn(nc)
+		if n.kind == "select" && g.r.Bool() {
+			n.dflt = -1
+		}
+		if n.kind == "expr" {
+			for i := 0; i+1 < nc; i++ {
+				if g.r.Intn(3) == 0 {
+					c := n.clauses[i]
+					c[len(c)-1] = &tn{k: "fall"}
+				}
+			}
+		}
+		return n
+	}
+}
+
+// inject returns zero or one statement that may contain a break or continue: referring to the
+// innermost enclosing statement, to an outer one by label, or to a statement of its own.
+func (g *tgen) inject(depth int, ctx []*tn) []*tn {
+	if g.injected >= 2 || len(ctx) == 0 || g.r.Intn(3) != 0 {
+		return nil
+	}
+	g.injected++
+	brk := func() *tn {
+		if g.r.Bool() {
+			return &tn{k: "brk"}
+		}
+		t := ctx[g.r.Intn(len(ctx))]
+		if t.rng && t == ctx[len(ctx)-1] {
+			return &tn{k: "brk"}
+		}
+		return &tn{k: "brk", target: t}
+	}
+	outer := func() *tn { // a labeled break out of a statement of its own: refers to an enclosing one
+		t := ctx[g.r.Intn(len(ctx))]
+		return &tn{k: "brk", target: t}
+	}
+	inFor := false
+	for _, c := range ctx {
+		inFor = inFor || c.k == "for"
+	}
+	switch g.r.Intn(8) {
+	case 0:
+		return []*tn{brk()}
+	case 1, 2:
+		return []*tn{{k: "ifonly", body: []*tn{brk()}}}
+	case 3: // its own loop with an unlabeled break: refers to that loop only
+		n := g.breakable("for")
+		n.body = []*tn{{k: "brk"}}
+		return []*tn{n}
+	case 4: // a labeled break from inside a statement of its own
+		n := g.breakable("for")
+		n.body = []*tn{{k: "ifonly", body: []*tn{outer()}}, {k: "brk"}}
+		return []*tn{n}
+	case 5:
+		n := g.breakable("sw")
+		n.kind = []string{"expr", "type", "select"}[g.r.Intn(3)]
+		n.clauses = [][]*tn{{outer()}}
+		n.dflt = 0
+		if n.kind == "select" {
+			n.dflt = -1
+		}
+		return []*tn{n}
+	case 6:
+		if inFor {
+			return []*tn{{k: "ifonly", body: []*tn{{k: "cont"}}}}
+		}
+		return []*tn{{k: "ifonly", body: []*tn{brk()}}}
+	default:
+		return []*tn{{k: "block", body: []*tn{{k: "ifelse", body: []*tn{brk()}, els: &tn{k: "block", body: []*tn{{k: "simple"}}}}}}}
+	}
+}
+
+func (g *tgen) termList(depth int, ctx []*tn) []*tn {
+	var out []*tn
+	for i, n := 0, g.r.Intn(2); i < n; i++ {
+		out = append(out, &tn{k: "simple"})
+	}
+	out = append(out, g.inject(depth, ctx)...)
+	return append(out, g.term(depth, ctx))
+}
+
 // mark sets the `used` flag of every statement that a labeled break of the final tree refers to
 // and reports whether the tree has a goto.
 func mark(list []*tn) (hasGoto bool) {
@@ -313,7 +442,12 @@ func mark(list []*tn) (hasGoto bool) {
 // terminatingProgram builds one function with a result around a generated statement list.
 func terminatingProgram(c *hx.Ctx) *uprog {
 	g := &tgen{r: c.R}
-	body := g.list(1+c.R.Intn(3), nil)
+	var body []*tn
+	if c.R.Bool() {
+		body = g.list(1+c.R.Intn(3), nil)
+	} else {
+		body = g.termList(1+c.R.Intn(3), nil)
+	}
 	g.hasGoto = mark(body)
 	p := &uprog{pre: "func f(x int, v interface{}, ch chan int) int {\n", post: "}\nfunc main() { _ = f }\n"}
 	if g.hasGoto {
